@@ -7,7 +7,11 @@
 (* the new count, whoever calls it (a later Eval, a later EvalWithContext that *)
 (* is not cancelled, or the host through a function value obtained right after *)
 (* the definition).  A cancelled evaluation runs a program that touches none   *)
-(* of the definitions.  The module generates the histories (exhaustively up to *)
+(* of the definitions, or it CALLS one of the blocking definitions (Blocking:   *)
+(* a function that first waits for a value in a select or a receive and only   *)
+(* then counts) and is cancelled while it waits there: the count is unchanged,  *)
+(* and the definition must serve later uses as if that call had never been.     *)
+(* The module generates the histories (exhaustively up to                      *)
 (* a length, by simulation beyond) together with the value every Use must      *)
 (* return; the mechanism-level reason why the real interpreter can fail is     *)
 (* modelled separately in RunId.tla (invariant DefinitionsSurvive).            *)
@@ -19,6 +23,8 @@ CONSTANTS Kinds,      \* definition kinds in this configuration
 
 Vias  == {"eval", "ctx", "host"}
 Whats == {"busy", "blocked", "expired"}
+\* definitions whose use waits (single-clause select, two-clause select, receive) before it counts
+Blocking == {"selfn", "sel2fn", "recvfn"}
 
 VARIABLES count,   \* kind -> number of completed uses
           hist,    \* the steps so far, each with its predicted return value
@@ -52,14 +58,25 @@ Allowed(k, via) ==
     \/ ncancel = 0
     \/ (k \notin Fragile /\ (via # "host" \/ fresh))
 
+\* the cancelled evaluation calls definition k and is cancelled while k waits
+CancelledInDef(k) ==
+    /\ Len(hist) < MaxLen
+    /\ hist' = Append(hist, [op |-> "cancel", kind |-> k, via |-> "", what |-> "indef", ret |-> 0])
+    /\ ncancel' = ncancel + 1
+    /\ fresh' = FALSE
+    /\ UNCHANGED count
+
 Next == \/ \E k \in Kinds, via \in Vias : Allowed(k, via) /\ Use(k, via)
         \/ \E w \in Whats : CancelledEval(w)
+        \/ \E k \in Kinds \cap Blocking : CancelledInDef(k)
 
 \* simulation: kind of step first, then its parameters
 NextSim ==
     LET z == hist IN
     IF RandomElement(1..3) = 1
-    THEN CancelledEval(RandomElement(Whats))
+    THEN (IF Kinds \cap Blocking # {} /\ RandomElement(1..2) = 1
+          THEN CancelledInDef(RandomElement(Kinds \cap Blocking))
+          ELSE CancelledEval(RandomElement(Whats)))
     ELSE LET kv == {p \in Kinds \X Vias : Allowed(p[1], p[2])} IN
          kv # {} /\ LET p == RandomElement(kv) IN Use(p[1], p[2])
 
@@ -69,7 +86,7 @@ SpecSim == Init /\ [][NextSim]_vars
 (* The property on the model: a cancelled evaluation is a stuttering step of the *)
 (* definitions' state, and every use returns one more than the previous use of   *)
 (* the same definition.                                                          *)
-CancelIsStutter == [][(\E w \in Whats : CancelledEval(w)) => UNCHANGED count]_vars
+CancelIsStutter == [][((\E w \in Whats : CancelledEval(w)) \/ (\E k \in Kinds \cap Blocking : CancelledInDef(k))) => UNCHANGED count]_vars
 UsesCountUp ==
     \A i \in 1..Len(hist) : hist[i].op = "use" =>
         hist[i].ret = 1 + Cardinality({j \in 1..(i-1) : hist[j].op = "use" /\ hist[j].kind = hist[i].kind})
